@@ -2314,7 +2314,9 @@ Section Trace.
   Proof.
     rewrite execute_once_unfold. intros H.
     apply bind_inl in H. destruct H as (s0 & u0 & H0 & H).
-    unfold Interp.modify in H0. inversion H0; subst s0. clear H0.
+    assert (C0 : i_config (m_i s0) = i_config (m_i s)) by (inversion H0; reflexivity).
+    assert (S0 : senttr s0 = senttr s) by (inversion H0; reflexivity).
+    clear H0.
     apply bind_inl in H. destruct H as (sa & ua & Ha & H).
     assert (Ca := K_raise_meta _ (@i_config ctx) _ _ _ _ Ha).
     assert (Sa := run_ok_noexec _ _ _ _ _ (plays_raise_meta AEM _ _ AEM_emit _ _ Ha) eq_refl).
@@ -2326,14 +2328,15 @@ Section Trace.
     assert (St := run_ok_noexec _ _ _ _ _ Rt (exec_slots_inv _ _)).
     unfold macro_part in Hd. destruct steps as [|first rest].
     - inversion Hd; subst. exists sd, sd, []. split; [apply chain_nil|].
-      simpl in *. repeat split; auto; congruence.
+      split; [congruence|]. split; [congruence|]. split; [auto|]. split; [auto|]. left; auto.
     - apply bind_inl in Hd. destruct Hd as (sp & up & Hp & Hd).
       assert (Cp := K_macro_pre _ (@i_config ctx) _ _ (fun q i => eq_refl) (fun q i => eq_refl) _ _ Hp).
       assert (Sp := run_ok_noexec _ _ _ _ _ (plays_macro_pre _ _ _ _ Hp) eq_refl).
       apply bind_inl in Hd. destruct Hd as (sq & l & Hq & Hd).
       unfold Interp.bind, Interp.get, Interp.ret in Hd. inversion Hd; subst.
       exists sp, sd, l. split; [eapply run_steps_chain; eauto|].
-      simpl in *. repeat split; auto; try congruence. right. eexists; reflexivity.
+      split; [congruence|]. split; [congruence|]. split; [auto|]. split; [auto|].
+      right. eexists; reflexivity.
   Qed.
 
   Theorem C03_trace_truth fuel now s s' t steps :
@@ -2389,12 +2392,15 @@ Section Trace.
     apply bind_inl in H. destruct H as (s2' & i2 & Hg & H). inversion Hg; subst s2' i2.
     apply bind_inl in H. destruct H as (s3 & u3 & H3 & H).
     destruct (mem (s_name st) (i_config (m_i s2))) eqn:Em; [|discriminate].
-    inversion H3; subst s3. clear H3.
-    apply bind_inl in H. destruct H as (s4 & u4 & H4 & H).
-    apply (K_contract _ (@i_config ctx) _ _ _ _ _ _ _ (fun c i => eq_refl)) in H4.
-    apply bind_inl in H. destruct H as (s5 & u5 & H5 & H).
-    apply (K_raise_meta _ (@i_config ctx)) in H5.
-    inversion H; subst. simpl in *. rewrite <- H1, <- H2. split; auto. congruence.
+    assert (E3 : i_config (m_i s3) = remove_first (s_name st) (i_config (m_i s2)))
+      by (inversion H3; reflexivity).
+    clear H3.
+    apply bind_inl in H. destruct H as (s4 & u4 & Hc4 & H).
+    apply (K_contract _ (@i_config ctx) _ _ _ _ _ _ _ (fun c i => eq_refl)) in Hc4.
+    apply bind_inl in H. destruct H as (s5 & u5 & Hm5 & H).
+    apply (K_raise_meta _ (@i_config ctx)) in Hm5.
+    assert (E5 : s' = s5) by (inversion H; auto). subst s5.
+    rewrite <- H1, <- H2. split; auto. congruence.
   Qed.
 
   Lemma enter_state_cfg ev st s s' a :
@@ -2407,10 +2413,12 @@ Section Trace.
     apply bind_inl in H. destruct H as (s2 & sent & H2 & H).
     apply (K_run_code _ (@i_config ctx) _ _ _ _ _ (fun c i => eq_refl)) in H2.
     apply bind_inl in H. destruct H as (s3 & u3 & H3 & H).
-    inversion H3; subst s3. clear H3.
-    apply bind_inl in H. destruct H as (s4 & u4 & H4 & H).
-    apply (K_raise_meta _ (@i_config ctx)) in H4.
-    inversion H; subst. simpl in *. congruence.
+    assert (E3 : i_config (m_i s3) = set_add (s_name st) (i_config (m_i s2)))
+      by (inversion H3; reflexivity).
+    clear H3.
+    apply bind_inl in H. destruct H as (s4 & u4 & Hm4 & H).
+    apply (K_raise_meta _ (@i_config ctx)) in Hm4.
+    assert (E4 : s' = s4) by (inversion H; auto). subst s4. congruence.
   Qed.
 
   Lemma mapM_exit_cfg active ev l : forall s s' ls,
